@@ -140,6 +140,21 @@ def predicates(depth):
     for e in ("'a' <= r.s < 'b'", "r.s == r.t == 'a'", "r.s != r.t != r.s", "1 < r.n < r.m < 10", "r.n == r.m == r.o", "0 <= r.n <= r.m <= r.n",
               "r.n < r.m > 2", "1 == r.n in [1, 2]", "r.s in ['a', 'b'] == True", "r.n < r.m in [3, 4]", "0 < r.n != r.m", "r.n in [1, 2] in [True]"):
         add(e)
+    # ---- constructs nested in operand positions (a chain / boolean operation / membership test as operand of another comparison,
+    #      inside a list or tuple display, inside arithmetic, inside a generator element or condition)
+    for e in ("(1 < r.n < 3) == True", "(1 < r.n < 3) == (r.m > 0)", "(0 < r.m < r.n < 5) in [True]", "(r.n < r.m < 3) != r.b", "r.b == (r.n <= r.m <= 3)",
+              "[1 < r.n < 3] == [True]", "(r.n < r.m < 3, r.b) == (True, True)", "(1 < r.n < 3) + 1 == 2", "(r.n > 1) + (r.m > 1) == 2", "(r.n < r.m < 3) * 3 == 3",
+              "(r.n > 1 and r.m > 1) == r.b", "(r.b or r.n) == 1", "(r.s and r.t) == 'a'", "(not r.b) == (r.n > 1)", "(r.n in [1, 2]) == (r.m in [1, 2])",
+              "(r.s in ['a']) != (r.t == 'a' != r.s)", "(1 < r.n < 3) in [r.b]", "((1 < r.n < 3) == True) == r.b", "(r.n == r.m == 1) == (r.s == r.t == 'a')",
+              "any((1 < x < 3) == True for x in [r.n, r.m])", "all((x < r.m < 3) == r.b for x in [r.n, 0])", "any(x for x in [r.n] if 1 < x < 3)",
+              "any(x for x in [r.n, r.m] if (0 < x < 3) == True)", "any([1 < r.n < 3, r.m < r.n < 1])", "all(((r.n < r.m < 3), r.b))",
+              "(r.n if False else r.m) == r.m"):
+        tags = set()
+        if " if " in e and "for" in e:
+            tags.add("ifs")
+        if " if False" in e:
+            tags.add("outside")
+        add(e, tags)
     # ---- membership
     for e in ("r.n in [1, 2, 3]", "r.n in (1, r.m)", "r.n not in [1, r.m]", "r.n in []", "r.n not in ()", "r.s in ['a', 'bc', r.t]", "r.s not in ('a', r.t)",
               "'a' in r.s", "'ab' in r.s", "r.t in r.s", "r.s not in r.t", "'' in r.s", "r.s in 'abc'", "r.n in [r.n]", "r.b in [True]", "r.o in [None, 1]",
